@@ -24,7 +24,8 @@ PID = "C12"
 BOUNDS = ("history of 1-2 runs + run B on one provider; failing statement position k in 0..3, provider fault index j in 1..4; free names: the "
           "tables H creates, the table B reads, 2 column names (2 characters); nested run at the j-th provider lookup; real OS-thread "
           "interleavings are NOT encoded: runs with their own providers share only SQLLineageConfig (C15) and import-time constants, "
-          "which the frame check asserts")
+          "which the frame check asserts (module- and class-level mutable objects, memoised functions, mutable attribute objects shared by fresh provider / analyzer "
+          "instances; every public accessor exercised)")
 STUBS = ["sqllineage.runner.split / SqlFluffLineageAnalyzer._list_specific_statement_segment (parser boundary; the unparsable statement is "
          "the stub raising InvalidSyntaxException for its handle, as the real function does on lex/parse violations)"]
 ASSUMPTIONS = ["a run calls out (and can be interleaved with another run of the same thread) only at provider lookups",
